@@ -9,8 +9,8 @@ for id in $ids; do
   extra=$(python3 -c "import json;print(' '.join(json.load(open('$d/meta.json')).get('also_check',[])))")
   git -C /repo checkout -q -- . ; git -C /repo apply /verif/$d/patch.diff || { echo "$id: patch does not apply"; continue; }
   for p in $prop $extra; do
-    out=$(./check $p 2>&1); rc=$?
-    echo "$id -> $p rc=$rc $(echo "$out" | grep -c '^VIOLATION') violation line(s): $(echo "$out" | grep -m1 -E '^(VIOLATION|INCONCLUSIVE|OK)')"
+    t0=$(date +%s); out=$(./check $p 2>&1); rc=$?
+    echo "$id -> $p rc=$rc $(( $(date +%s) - t0 ))s $(echo "$out" | grep -c '^VIOLATION') violation line(s): $(echo "$out" | grep -m1 -E '^(VIOLATION|INCONCLUSIVE|OK)')"
   done
   git -C /repo checkout -q -- .
 done
